@@ -367,6 +367,7 @@ structure Details where
   inv : Doc
   it : Doc
   wu : Doc
+  env : Doc := .map []
 
 /-- exp_run_details.py:42-45 (the other settings are converted by functions that cannot
 fail on schema-valid values) -/
@@ -374,7 +375,8 @@ def compileDetails (cfg : Doc) (d : Details) : M Details := do
   let inv ← preferImportant (cfg.getD "invocations" .null) d.inv
   let it ← preferImportant (cfg.getD "iterations" .null) d.it
   let wu ← preferImportant (cfg.getD "warmup" .null) d.wu
-  pure { inv := inv, it := it, wu := wu }
+  -- exp_run_details.py:58 `none_or_dict(config.get('env', defaults.env))`: replaced, not merged
+  pure { inv := inv, it := it, wu := wu, env := cfg.getD "env" d.env }
 
 /-- exp_run_details.py:158-170 `resolve_override_and_important` -/
 def resolveDetails (cli : Cli) (d : Details) : M Unit := do
@@ -415,6 +417,18 @@ def countRuns (v : Vars) : M Nat := do
   if vs.isEmpty then return 0
   let ts ← iter v.tags
   pure (cs.length * is.length * vs.length * ts.length)
+
+/-- exp_run_details.py:155-163 `__hash__`: `tuple(sorted(self.env.items())) if self.env else None`
+— sorting raises TypeError when the keys are not mutually comparable (strings with
+strings, numbers and booleans with each other) -/
+def hashDetails (d : Details) : M Unit :=
+  match d.env with
+  | .map kvs =>
+    let isNum (k : Doc) : Bool := match k with | .int _ => true | .bool _ => true | .float _ => true | _ => false
+    if kvs.length < 2 then pure ()
+    else if kvs.all (fun kv => kv.1.isStr) || kvs.all (fun kv => isNum kv.1) then pure ()
+    else throw .typeError
+  | _ => pure ()
 
 /-- exp_variables.py:82-90 `__hash__`: `tuple(self.input_sizes)`, … -/
 def hashVars (v : Vars) : M Unit := do
@@ -492,11 +506,11 @@ def compileSuite (suite : Doc) (d : Details) (v : Vars) : M (Details × Vars) :=
   pure (d', compileVars suite v)
 
 /-- benchmark.py:33-52 -/
-def compileBench (cli : Cli) (bench : Doc) (d : Details) (v : Vars) : M Vars := do
+def compileBench (cli : Cli) (bench : Doc) (d : Details) (v : Vars) : M (Details × Vars) := do
   let (_, details) ← valueWithDetails bench (.map [])
   let d' ← compileDetails details d
   resolveDetails cli d'
-  pure (compileVars details v)
+  pure (d', compileVars details v)
 
 def forM' {α : Type} (xs : List α) (f : α → M Unit) : M Unit :=
   match xs with
@@ -514,7 +528,7 @@ def mapM' {α β : Type} (xs : List α) (f : α → M β) : M (List β) :=
 /-- experiment.py:101-125 `_compile_executors_and_benchmark_suites`: the compiled
 suites with the settings their benchmarks inherit -/
 def compileExecutions (env : Env) (executions suites : Doc) (d : Details) (v : Vars) :
-    M (List (Doc × Details × Vars × Vars)) := do
+    M (List (Doc × Details × Vars × Details × Vars)) := do
   let execs ← iter executions
   let per ← mapM' execs (fun executorCfg => do
     let (name, details) ← valueWithDetails executorCfg .null
@@ -540,7 +554,7 @@ def compileExecutions (env : Env) (executions suites : Doc) (d : Details) (v : V
         | _ => throw .keyError
       let (d3, v3) ← compileSuite sCfg d2 v2
       -- the executor's own variables are kept: they are hashed with every run (see `hashVars`)
-      pure (sCfg, d3, v3, v2)))
+      pure (sCfg, d3, v3, d2, v2)))
   pure per.flatten
 
 /-- experiment.py:36-62 + 64-82: one experiment; returns its number of runs -/
@@ -565,16 +579,19 @@ def compileExperiment (cli : Cli) (root : Doc) (dataFile : Doc) (exp : Doc) (d :
                      suites := root.getD "benchmark_suites" (.map []), action := action }
   let suites ← compileExecutions env (exp.getD "executions" .null) (exp.getD "suites" .null) d1 v1
   -- _compile_benchmarks
-  let benches ← mapM' suites (fun (s : Doc × Details × Vars × Vars) => do
+  let benches ← mapM' suites (fun (s : Doc × Details × Vars × Details × Vars) => do
     let bs ← iter (s.1.getD "benchmarks" .null)
     mapM' bs (fun b => do
       let bv ← compileBench cli b s.2.1 s.2.2.1
       pure (bv, s.2.2.2)))
   -- _compile_runs; creating the first run of a benchmark hashes it (persistence.py:109-114):
   -- run → benchmark → suite → executor → `ExpVariables.__hash__` of the executor
-  let counts ← mapM' benches.flatten (fun (bv : Vars × Vars) => do
-    let n ← countRuns bv.1
-    if n > 0 then hashVars bv.2
+  let counts ← mapM' benches.flatten (fun (bv : (Details × Vars) × Details × Vars) => do
+    let n ← countRuns bv.1.2
+    if n > 0 then do
+      hashDetails bv.1.1
+      hashDetails bv.2.1
+      hashVars bv.2.2
     pure n)
   pure counts.sum
 
